@@ -19,7 +19,7 @@ func init() {
 		about: "C16 (module cache never serves a partial download): decides the ORDER OF EFFECTS of the fetch protocol on every control-flow path of " +
 			"(*Cache).Fetch, downloadDir, downloadZip, downloadZip1, fetchModFileData, downloadModFile1, writeDiskCache and lockVersion: lock held around extraction, " +
 			"re-check after the lock, .partial marker written (successfully) before Unzip and removed only after Unzip succeeded or the tree was removed, " +
-			"downloadDir reports success only with directory present and marker absent, temp-file + close + rename for zip and module file, " +
+			"a partial directory left by a crashed fetch is removed before re-extraction unless the post-lock verdict proves it is not partial, downloadDir reports success only with directory present and marker absent, temp-file + close + rename for zip and module file, " +
 			"download helpers reachable only through the single-flight caches and under the version lock, and ownership of every mutating file-system call on a protocol artefact. " +
 			"A crash can only fall between two effects, so constraining the order of effects on all paths covers all crash points of these functions.",
 		trust: []string{"lockedfile.Mutex is a correct inter-process lock", "os.Rename is atomic on the cache file system", "modzip.Unzip content (C15)"},
